@@ -11,7 +11,13 @@ Each task carries its own copy of the two context variables that matter here:
 tokens (`Frame.savedCur/savedGroup`), leaving restores them; a new task copies the creating task's values
 (`copy_context`).  `ctx.spawn` makes the new task a member of the current group, whose owner waits for all
 members in `__aexit__` before `MetricsContext.__exit__` runs (`blocked`).  Every use of the completion
-protocol goes through `compStep`, which refuses ill-formed API use explicitly (`bad`). -/
+protocol goes through `compStep`, which refuses ill-formed API use explicitly (`bad`).
+
+Fault paths: an async scope may carry a disposable whose `__aexit__` raises (`Frame.disp`): the cleanup error
+becomes the exit reason, the task group is aborted (its members are cancelled) and the metrics context is
+still exited.  `Ev.cancel t` is `Task.cancel()` at a quiescent point (the task is suspended in a body or
+blocked in an exit): `CancelledError` unwinds every block of the task, each async block first cancelling and
+joining its members (`killSet`), each block's `MetricsContext.__exit__` runs; the task ends. -/
 namespace Haiway.ScopeRun
 open Haiway
 open Haiway.Completion (upd)
@@ -19,6 +25,7 @@ open Haiway.Completion (upd)
 structure Frame where
   scope : Nat
   isAsync : Bool
+  disp : Bool := false         -- carries a disposable whose `__aexit__` raises (unless cancelled)
   savedCur : Option Nat        -- token of `MetricsContext._context`
   savedGroup : Option Nat      -- token of `TaskGroupContext._context`
 deriving Repr
@@ -28,7 +35,7 @@ structure Task where
   group : Option Nat := none
   frames : List Frame := []              -- entered scopes of this task, innermost first
   inherited : Option Nat := none         -- ghost: `cur` when the task was created
-  pending : Option (Nat × Bool) := none  -- a constructed, not yet entered scope object held by the task
+  pending : Option (Nat × Bool × Bool) := none  -- a constructed, not yet entered scope object held by the task (id, async, disp)
   alive : Bool := false
   blocked : Bool := false                -- inside `__aexit__`, waiting for the group members
   memberOf : Option Nat := none
@@ -47,14 +54,15 @@ structure Sys where
 def init : Sys := { tasks := upd (fun _ => {}) 0 { alive := true }, ntasks := 1 }
 
 inductive Ev where
-  | openScope (t : Nat) (isAsync : Bool) (spec : Logs.Spec)   -- `with ctx.scope(…):` construct and enter
-  | make (t : Nat) (isAsync : Bool) (spec : Logs.Spec)        -- `held = ctx.scope(…)`
+  | openScope (t : Nat) (isAsync disp : Bool) (spec : Logs.Spec)   -- `with ctx.scope(…):` construct and enter
+  | make (t : Nat) (isAsync disp : Bool) (spec : Logs.Spec)        -- `held = ctx.scope(…)`
   | enter (t : Nat)                                           -- `with held:`
   | exit (t : Nat) (exc : Bool)                               -- leave the innermost block (`exc`: by an exception)
   | record (t : Nat) (v : Metrics.Val) (m : Metrics.Merge)
   | log (t : Nat) (lv : Logs.Level) (msg : List Char) (args : List Logs.Arg) (exc : Bool)
   | spawn (t : Nat) (member : Bool)                           -- `ctx.spawn` / `asyncio.create_task`
   | finishTask (t : Nat)
+  | cancel (t : Nat)                                          -- `Task.cancel()` from outside, at a quiescent point
   | tick (dt : Nat)
 
 def canAct (s : Sys) (t : Nat) : Bool :=
@@ -83,11 +91,11 @@ def construct (s : Sys) (t : Nat) (spec : Logs.Spec) : Sys :=
   | none => { s with bad := true }
 
 /-- `__enter__` / `__aenter__` of scope `id` by task `t` -/
-def enterScope (s : Sys) (t id : Nat) (isAsync : Bool) : Sys :=
+def enterScope (s : Sys) (t id : Nat) (isAsync disp : Bool) : Sys :=
   let tk := s.tasks t
   let s := compStep s (.enter id)
   let tk' : Task :=
-    { tk with frames := ⟨id, isAsync, tk.cur, tk.group⟩ :: tk.frames, cur := some id,
+    { tk with frames := ⟨id, isAsync, disp, tk.cur, tk.group⟩ :: tk.frames, cur := some id,
               group := if isAsync then some id else tk.group, pending := none }
   { s with tasks := upd s.tasks t tk' }
 
@@ -105,31 +113,72 @@ def blockedOwner (s : Sys) (g : Nat) : Option Nat :=
   (List.range s.ntasks).find? fun o =>
     (s.tasks o).blocked && (match (s.tasks o).frames with | f :: _ => f.scope == g | [] => false)
 
+/-- leave every block of task `t` (innermost first); `fuel` = number of frames -/
+def finishFrames (s : Sys) (t : Nat) : Nat → Sys
+  | 0 => s
+  | fuel + 1 => finishFrames (finishExit s t) t fuel
+
+/-- the tasks that die with the tasks in `seed`: the live members of the groups of their async blocks,
+transitively (`fuel = ntasks` rounds are always enough) -/
+def killSet (s : Sys) (seed : List Nat) : Nat → List Nat
+  | 0 => seed
+  | fuel + 1 =>
+    let groups := seed.flatMap fun t => ((s.tasks t).frames.filter (·.isAsync)).map (·.scope)
+    let more := (List.range s.ntasks).filter fun u =>
+      (s.tasks u).alive && !seed.contains u &&
+        (match (s.tasks u).memberOf with | some g => groups.contains g | none => false)
+    killSet s (seed ++ more) fuel
+
+/-- `CancelledError` unwinds task `t`: all its blocks are left, the task ends -/
+def killTask (s : Sys) (t : Nat) : Sys :=
+  let s := finishFrames s t (s.tasks t).frames.length
+  let tk' : Task := { s.tasks t with alive := false, pending := none, blocked := false }
+  { s with tasks := upd s.tasks t tk' }
+
+def killAll (s : Sys) (ts : List Nat) : Sys := ts.foldl killTask s
+
+/-- live members of group `g`, and everything that dies with them -/
+def membersClosure (s : Sys) (g : Nat) : List Nat :=
+  killSet s ((List.range s.ntasks).filter fun u => (s.tasks u).alive && (s.tasks u).memberOf == some g) s.ntasks
+
+/-- after a member of `g` is gone: a blocked owner whose group is empty now completes its exit -/
+def releaseOwner (s : Sys) (g : Option Nat) : Sys :=
+  match g with
+  | some g =>
+    if hasLiveMembers s g then s
+    else match blockedOwner s g with
+      | some o => finishExit s o
+      | none => s
+  | none => s
+
 def step (s : Sys) : Ev → Sys
-  | .openScope t isAsync spec =>
+  | .openScope t isAsync disp spec =>
     if canAct s t then
       let id := s.comp.size
       let pend := (s.tasks t).pending
-      let s := enterScope (construct s t spec) t id isAsync
+      let s := enterScope (construct s t spec) t id isAsync disp
       { s with tasks := upd s.tasks t { s.tasks t with pending := pend } }
     else { s with bad := true }
-  | .make t isAsync spec =>
+  | .make t isAsync disp spec =>
     if canAct s t then
       let id := s.comp.size
       let s := construct s t spec
-      { s with tasks := upd s.tasks t { s.tasks t with pending := some (id, isAsync) } }
+      { s with tasks := upd s.tasks t { s.tasks t with pending := some (id, isAsync, disp) } }
     else { s with bad := true }
   | .enter t =>
     if canAct s t then
       match (s.tasks t).pending with
-      | some (id, isAsync) => enterScope s t id isAsync
+      | some (id, isAsync, disp) => enterScope s t id isAsync disp
       | none => { s with bad := true }
     else { s with bad := true }
   | .exit t exc =>
     if canAct s t then
       match (s.tasks t).frames with
       | f :: _ =>
-        if f.isAsync && hasLiveMembers s f.scope then
+        if f.disp then
+          -- the failing cleanup becomes the exit reason: the group is aborted, then the metrics context exits
+          finishExit (killAll s (membersClosure s f.scope).reverse) t
+        else if f.isAsync && hasLiveMembers s f.scope then
           if exc then { s with bad := true }      -- would cancel the members: not part of these programs
           else { s with tasks := upd s.tasks t { s.tasks t with blocked := true } }
         else finishExit s t
@@ -163,13 +212,13 @@ def step (s : Sys) : Ev → Sys
     if canAct s t && (s.tasks t).frames.isEmpty then
       let tk := s.tasks t
       let s := { s with tasks := upd s.tasks t { tk with alive := false, pending := none } }
-      match tk.memberOf with
-      | some g =>
-        if hasLiveMembers s g then s
-        else match blockedOwner s g with
-          | some o => finishExit s o
-          | none => s
-      | none => s
+      releaseOwner s tk.memberOf
+    else { s with bad := true }
+  | .cancel t =>
+    if decide (t < s.ntasks) && (s.tasks t).alive then
+      let g := (s.tasks t).memberOf
+      -- members first, the cancelled task last: an owner joins its members before its own metrics exit
+      releaseOwner (killAll s (killSet s [t] s.ntasks).reverse) g
     else { s with bad := true }
   | .tick dt => compStep s (.tick dt)
 
